@@ -37,6 +37,9 @@ match_deflag(eos, Tn, vw)                    reference deflagration/hybrid match
                                              -> Matching(ok, kind, vp, vm, Tp, Tm, shock, dTn_dvp, dTp_dvp, dTm_dvp,
                                              cond) / ok=False + reason ('below-vmin', 'above-vJ' = no solution exists;
                                              anything else = the reference failed)
+shock_backward_bound(eos, Tn, vw, vp, vm, Tp, Tm, kind, rtol, atol)
+                                             allowed |Tn' - Tn| for a returned matching (slope dTn'/dv+ measured along
+                                             the exact junctions) -> (bound, slope)
 detonation(eos, Tn, vw)                      weak detonation root (vp = vw, Tp = Tn) -> Matching
 chapman_jouguet(eos, Tn)                     (vJ, TmJ): the wall speed at which the weak and strong roots merge
 match(eos, Tn, vw, vJ=None)                  dispatch on vw <= vJ
@@ -910,6 +913,30 @@ def match_deflag(eos, Tn, vw, want_kappa=False, hint_vp=None):
         break
     m.ok = True
     return m
+
+
+def shock_backward_bound(eos, Tn, vw, vp, vm, Tp, Tm, kind, rtol, atol, K=10.0):
+    """Allowed |Tn' - Tn| for a returned deflagration/hybrid matching (the solver's root is in v+):
+    K (atol + rtol Tn) [ODE + front root] + |dTn'/dv+| K (atol + rtol v+) + Tn K (atol + rtol T+)/T+ .
+    The slope dTn'/dv+ is measured along the exact wall junctions around the returned one (central
+    difference, relative step 1e-6).  Returns (bound, slope); raises RefFailure."""
+    eos = as_eos(eos)
+    h = 1e-6
+    pts = []
+    for s in (-1.0, 1.0):
+        x = vp * (1.0 + s * h)
+        if not 0.0 < x < vw:
+            continue
+        Tpx, Tmx, vmx, kindx = junction_at_vp(eos, x, vw, Tn, (Tp, Tm, kind))
+        sh = integrate_shock(eos, vw, x, Tpx, want_kappa=False)
+        if not sh.ok:
+            raise RefFailure(f"slope-shock:{sh.reason}")
+        pts.append((x, sh.Tn_out))
+    if len(pts) != 2:
+        raise RefFailure("slope-one-sided")
+    slope = (pts[1][1] - pts[0][1]) / (pts[1][0] - pts[0][0])
+    b = K * (atol + rtol * Tn) + abs(slope) * K * (atol + rtol * vp) + Tn * K * (atol + rtol * Tp) / Tp
+    return b, slope
 
 
 def _deton_functions(eos, Tn, vw):
